@@ -20,7 +20,7 @@
   Second half (aliasing): *partial by nature* — see §3.
 -/
 import GraphiqModel.Proofs.Wire
-import GraphiqModel.Proofs.CommuteCircuit
+import GraphiqModel.Proofs.CommuteComplete
 namespace Graphiq.C13
 open Graphiq Graphiq.Wire
 
@@ -211,6 +211,59 @@ theorem rewrite_preserves_compiled_tableau (c c' : Circuit) (hgood : c.Good) (ha
   intro P
   show (TabSpec.gstate s.t).G P ↔ (TabSpec.gstate s'.t).G P
   rw [e'']
+
+/-- **for every run along one topological order there is a run along any other one that records the same outcome at every
+    measuring operation, and it ends in the same stabilizer group** — so the hypothesis `hout` of
+    `compiled_tableau_independent_of_topological_order` can always be met: given a run of the compile loop along `seq1`
+    (any measurement setting), the loop along `seq2` in probabilistic mode, under a suitable script of drawn bits, records
+    the same per-register outcome streams and ends in a tableau with the same signed stabilizer group -/
+theorem compiled_run_exists_in_every_topological_order (c : Circuit) (hgood : c.Good) (har : Commute.ArityOk c)
+    (seq1 seq2 : List Nat) (hl1 : c.isLinearExtension seq1 = true) (hl2 : c.isLinearExtension seq2 = true)
+    (d1 : Det) (script1 : List Bool) (s1 : RunState)
+    (h1 : stabRun c.ne c.np d1 script1 ((c.sops seq1).map Commute.toCOp) = some s1) :
+    ∃ (script2 : List Bool) (s2 : RunState),
+      stabRun c.ne c.np .prob script2 ((c.sops seq2).map Commute.toCOp) = some s2 ∧
+      Commute.feed c.ne c.np (c.sops seq1) s1.outs (fun _ => []) =
+        Commute.feed c.ne c.np (c.sops seq2) s2.outs (fun _ => []) ∧
+      ∀ P, TabSpec.Grp s1.t P ↔ TabSpec.Grp s2.t P := by
+  have r1 := (Commute.stabRun_refines c hgood har seq1 d1 script1 s1 h1).2 (fun _ => [])
+  have e := compile_independent_of_topological_order_stab c.ne c.np c hgood seq1 seq2 hl1 hl2
+    (Commute.GSt.init c.ne c.np (Commute.feed c.ne c.np (c.sops seq1) s1.outs (fun _ => [])))
+  have e' := congrArg Subtype.val e
+  rw [Commute.runSeq_appG_val, Commute.runSeq_appG_val] at e'
+  have e2 : runSeq (Commute.appRaw c.ne c.np) (c.sops seq2) (some (TabSpec.gstate (Tab.ket0 (c.ne + c.np)),
+      Commute.feed c.ne c.np (c.sops seq1) s1.outs (fun _ => []))) = some (TabSpec.gstate s1.t, fun _ => []) := by
+    rw [← r1]; exact e'.symm
+  obtain ⟨script2, s2, hs2, hg, hF⟩ := Commute.stabRun_complete c hgood har seq2 _ _ e2
+  refine ⟨script2, s2, hs2, hF, fun P => ?_⟩
+  show (TabSpec.gstate s1.t).G P ↔ (TabSpec.gstate s2.t).G P
+  rw [hg]
+
+/-- the same for the rewrites: for every run of the compile loop on the original circuit there is a run on the copied /
+    unwrapped / grouped / identity-free / empty-noise-map circuit (any topological orders) that records the same outcome at
+    every measuring operation and ends in the same signed stabilizer group -/
+theorem compiled_run_exists_after_rewrite (c c' : Circuit) (hgood : c.Good) (har : Commute.ArityOk c) (h : Rewrites c c')
+    (seq seq' : List Nat) (hl : c.isLinearExtension seq = true) (hl' : c'.isLinearExtension seq' = true)
+    (d : Det) (script : List Bool) (s : RunState)
+    (h1 : stabRun c.ne c.np d script ((c.sops seq).map Commute.toCOp) = some s) :
+    ∃ (script' : List Bool) (s' : RunState),
+      stabRun c'.ne c'.np .prob script' ((c'.sops seq').map Commute.toCOp) = some s' ∧
+      Commute.feed c.ne c.np (c.sops seq) s.outs (fun _ => []) =
+        Commute.feed c'.ne c'.np (c'.sops seq') s'.outs (fun _ => []) ∧
+      ∀ P, TabSpec.Grp s.t P ↔ TabSpec.Grp s'.t P := by
+  have hflat := h.flat_eq hgood
+  have hne : c'.ne = c.ne := by simp only [Circuit.flat, Prod.mk.injEq] at hflat; exact hflat.1
+  have hnp : c'.np = c.np := by simp only [Circuit.flat, Prod.mk.injEq] at hflat; exact hflat.2.1
+  have r1 := (Commute.stabRun_refines c hgood har seq d script s h1).2 (fun _ => [])
+  have e := rewrite_preserves_compiled_group c c' hgood h seq seq' hl hl'
+    (Commute.feed c.ne c.np (c.sops seq) s.outs (fun _ => []))
+  rw [r1, ← hne, ← hnp] at e
+  obtain ⟨script', s', hs', hg, hF⟩ := Commute.stabRun_complete c' (h.good hgood) (Commute.Rewrites.arityOk hgood har h)
+    seq' _ _ e
+  refine ⟨script', s', hs', ?_, fun P => ?_⟩
+  · rw [← hF, hne, hnp]
+  · show (TabSpec.gstate s.t).G P ↔ (TabSpec.gstate s'.t).G P
+    rw [hg]
 
 /-! ## 3. library calls do not mutate their inputs -/
 
